@@ -1205,3 +1205,23 @@ def gen_shared_and_own(rng):
     rng.shuffle(order)
     maxstep = max(max(c["steps"]) for c in comps)
     return {"comps": permute(comps, order), "end": rng.choice([2, 3, 5]) * maxstep}
+
+
+def gen_topush_behind_pull(rng):
+    """a DelayToPush directly (or through a pass-through adapter) behind a pull-based component: it never sees a push,
+    keeps answering for the initial time, and the link is no dependency"""
+    unit = rng.choice(UNITS)
+    src = {"kind": "T", "start": 0, "steps": [unit * rng.choice([1, 1, 2])], "initpull": False, "nout": 1, "inputs": []}
+    relay = {"kind": "P", "nout": 1, "inputs": [{"src": [0, 0], "chain": [["pass"]] if rng.random() < 0.3 else []}]}
+    ch = [["topush"]] + ([["pass"]] if rng.random() < 0.3 else [])
+    if rng.random() < 0.3:
+        ch = [["pass"]] + ch
+    cons = {"kind": "T", "start": unit * rng.choice([0, 0, 1]), "steps": [unit * rng.choice([2, 3, 5])], "initpull": False,
+            "nout": 0, "inputs": [{"src": [1, 0], "chain": ch}]}
+    comps = [src, relay, cons]
+    if rng.random() < 0.5:
+        comps.append({"kind": "T", "start": 0, "steps": [unit * rng.choice([2, 5])], "initpull": False, "nout": 0,
+                      "inputs": [{"src": [0, 0], "chain": [["topush"]]}]})
+    order = list(range(len(comps)))
+    rng.shuffle(order)
+    return {"comps": permute(comps, order), "end": unit * rng.choice([12, 20])}
